@@ -18,6 +18,9 @@ warnings.filterwarnings("ignore")
 ID = "C11"
 TARGETS = ["Props/C11.vo"]
 TRUSTED = [
+    "the model is a function of one schedule() call (a Scheduler object keeps no state between calls); the harness "
+    "checks this on short histories of 2-4 different lists scheduled on ONE Scheduler object, every call compared "
+    "with the history-free model and the timetable oracle",
     "Model/Sched.v is a hand-written Gallina model of scheduler.py/instruction.py, tied to the code by exact "
     "comparison of start times / cycle lists on generated inputs (<= 8 instructions; dyadic durations so every float "
     "operation is exact; random.shuffle replaced from outside by recorded permutations that are also fed to the model)",
@@ -160,13 +163,11 @@ def eff_dur(spec):
     return Fraction(1) if spec.get("how") == "none" else dur_of(spec)
 
 
-def run_real(inp):
-    """-> (result | 'rejected: ...', perms used by shuffle)"""
+def _one_call(sch, call, SM):
+    """one Scheduler.schedule call on the given Scheduler object -> (result, perms used by shuffle)"""
     import random as _random
-    import qutip_qip.compiler.scheduler as SM
-    from qutip_qip.compiler import Scheduler
     from qutip_qip.circuit import QubitCircuit
-    rnd = _random.Random(inp.get("shuf_seed", 0))
+    rnd = _random.Random(call.get("shuf_seed", 0))
     perms = []
 
     def fake_shuffle(lst):
@@ -175,23 +176,21 @@ def run_real(inp):
         perms.append(p)
         lst[:] = [lst[i] for i in p]
 
-    old = SM.shuffle
     SM.shuffle = fake_shuffle
     try:
-        mode = inp["mode"]
-        sch = Scheduler(inp["method"], allow_permutation=inp["perm"])
-        if inp.get("as") == "circuit":
-            N = max([q for s in inp["instrs"] for q in spec_qubits(s)] + [0]) + 1
+        mode = call.get("mode", "pulse")
+        if call.get("as") == "circuit":
+            N = max([q for s in call["instrs"] for q in spec_qubits(s)] + [0]) + 1
             obj = QubitCircuit(N)
-            for s in inp["instrs"]:
+            for s in call["instrs"]:
                 obj.add_gate(mk_gate(s))
-        elif inp.get("as") == "gates":
-            obj = [mk_gate(s) for s in inp["instrs"]]
+        elif call.get("as") == "gates":
+            obj = [mk_gate(s) for s in call["instrs"]]
         else:
-            obj = [mk_instruction(s) for s in inp["instrs"]]
-        kw = dict(random_shuffle=inp.get("random", False))
-        if inp.get("repeat", 0):
-            kw["repeat_num"] = inp["repeat"]
+            obj = [mk_instruction(s) for s in call["instrs"]]
+        kw = dict(random_shuffle=call.get("random", False))
+        if call.get("repeat", 0):
+            kw["repeat_num"] = call["repeat"]
         if mode == "pulse":
             res = sch.schedule(obj, **kw)
             res = [Fraction(float(x)) for x in res]
@@ -204,6 +203,24 @@ def run_real(inp):
         return res, perms
     except Exception as e:  # noqa
         return "rejected: " + type(e).__name__, perms
+
+
+def run_real(inp):
+    """-> (result | 'rejected: ...', perms used by shuffle in the LAST call).
+    inp["history"] (optional): earlier calls (dicts with instrs/mode/random/shuf_seed/as/repeat) made on the SAME
+    Scheduler object before the call described by inp itself; their results are discarded here (every prefix of a
+    history is generated as a case of its own)."""
+    import qutip_qip.compiler.scheduler as SM
+    from qutip_qip.compiler import Scheduler
+    old = SM.shuffle
+    try:
+        try:
+            sch = Scheduler(inp["method"], allow_permutation=inp["perm"])
+        except Exception as e:  # noqa
+            return "rejected: " + type(e).__name__, []
+        for call in inp.get("history", []):
+            _one_call(sch, call, SM)
+        return _one_call(sch, inp, SM)
     finally:
         SM.shuffle = old
 
@@ -424,6 +441,52 @@ def exhaustive_inputs(maxlen, durs="1,4"):
                 yield dict(instrs=[syms[i] for i in combo], method=method, perm=True, random=False, shuf_seed=0, mode="pulse")
 
 
+COMMUTING_KINDS = ["CNOT", "CNOT", "CNOT", "RZ", "RZ", "Z", "X", "RX", "SNOT"]
+
+
+def _call_of(inp):
+    return {k: inp[k] for k in ("instrs", "mode", "random", "shuf_seed", "as", "repeat") if k in inp}
+
+
+def gen_history(rng):
+    """2-4 different instruction lists scheduled one after the other on ONE Scheduler object (same method and
+    allow_permutation).  Returns one input per call: call k carries calls 1..k-1 as inp["history"].  The lists are
+    built so that instructions at equal positions share a qubit in one call and not in another (spread = every
+    instruction on its own qubit where possible, packed = few qubits and commuting families), with equal and
+    different lengths and different duration styles."""
+    k = rng.randint(2, 4)
+    method = rng.choice(["ASAP", "ALAP"])
+    perm = rng.random() < 0.8
+    same_len = rng.random() < 0.5
+    n0 = rng.randint(2, 7)
+    calls = []
+    for c in range(k):
+        n = n0 if same_len else rng.randint(1, 8)
+        shape = rng.choice(["spread", "packed", "packed", "random"])
+        if shape == "spread":
+            qs = list(range(5))
+            rng.shuffle(qs)
+            specs = [dict(name=rng.choice(["X", "RZ", "Z", "SNOT"]), targets=[qs[i % 5]], controls=None, arg=None) for i in range(n)]
+            for sp in specs:
+                if sp["name"] == "RZ":
+                    sp["arg"] = rng.choice(ANGLES)
+        elif shape == "packed":
+            N = rng.choice([2, 3, 3])
+            specs = [rand_gate(rng, N, COMMUTING_KINDS) for _ in range(n)]
+        else:
+            specs = [rand_gate(rng, rng.choice([3, 4, 5])) for _ in range(n)]
+        specs = with_durations(rng, specs, rng.choice(STYLES))
+        calls.append(dict(instrs=specs, method=method, perm=perm, random=rng.random() < 0.25,
+                          shuf_seed=rng.randrange(10 ** 6), mode="pulse" if c == k - 1 or rng.random() < 0.8 else "cycles"))
+    out = []
+    for c in range(k):
+        inp = dict(calls[c])
+        if c:
+            inp["history"] = [_call_of(x) for x in calls[:c]]
+        out.append(inp)
+    return out
+
+
 def rel_tol(inp):
     """tolerance for start times that went through inexact float sums: relative to the total duration (an absolute
     tolerance would hide errors on nanosecond-scale schedules)"""
@@ -475,6 +538,11 @@ def correspond(ctx):
     # commutation-rule heavy
     for _ in range(ctx.n(400, 1500)):
         exact.append(("cnot-x-z", gen_input(rng, 7, N=rng.choice([2, 3]), kinds=["CNOT", "CNOT", "X", "RX", "Z", "RZ", "RZ", "SNOT"])))
+    # histories: several different lists scheduled on ONE Scheduler object; the model is history-free, so every
+    # call must give what a fresh Scheduler gives
+    for _ in range(ctx.n(350, 1500)):
+        for inp in gen_history(rng):
+            exact.append(("history-call-%d" % (len(inp.get("history", [])) + 1), inp))
     # exhaustive small alphabet, two durations
     ex = list(exhaustive_inputs(ctx.n(2, 4)))
     if not ctx.thorough:
@@ -573,6 +641,7 @@ def search(ctx, broken):
     cands = load_corpus("C11") + list(exhaustive_inputs(3)) + list(exhaustive_inputs(2, "nano")) + list(exhaustive_inputs(2, "nano,1"))
     rng = ctx.rng
     cands += [gen_input(rng, 10, mode="pulse") for _ in range(2000)]
+    cands += [i for _ in range(400) for i in gen_history(rng) if i["mode"] == "pulse"]
     for inp in cands:
         res, _ = run_real(inp)
         if isinstance(res, str):
